@@ -1,1 +1,24 @@
-//! Verification hooks: `clock` (thin pass-through wrappers; feature `verif-hooks` only).
+//! Clock override for [`crate::pkarr::Timestamp::now`].
+//!
+//! With an override installed, `Timestamp::now` takes its wall-clock reading (microseconds
+//! since the UNIX epoch) from the registered function instead of the system clock, so that a
+//! harness can script arbitrary readings (stalls, jumps backwards). With no override
+//! installed nothing changes.
+
+use std::sync::{Arc, RwLock};
+
+/// A replacement clock: returns microseconds since the UNIX epoch.
+pub type ClockFn = Arc<dyn Fn() -> u64 + Send + Sync>;
+
+static CLOCK: RwLock<Option<ClockFn>> = RwLock::new(None);
+
+/// Installs the clock override, or removes it with `None`.
+pub fn set_clock_override(f: Option<ClockFn>) {
+    *CLOCK.write().unwrap_or_else(|e| e.into_inner()) = f;
+}
+
+/// The overriding clock reading, if an override is installed.
+pub fn override_micros() -> Option<u64> {
+    let f = CLOCK.read().unwrap_or_else(|e| e.into_inner()).clone();
+    f.map(|f| f())
+}
